@@ -180,6 +180,9 @@ func (fr *frame) runDefer(d *deferred) {
 			}
 			fr.panicking = true
 			fr.panic = fr.i.wrapPanic(fr, r)
+			// the function is panicking from here on: the deferred calls still to run see the
+			// panicking frames on the stack (below runtime.gopanic), as in the Go run-time
+			fr.inPanicDefers = true
 		}
 	}()
 	call(fr.i, fr, d.instr.Pos(), d.fn, d.args)
